@@ -22,9 +22,13 @@ SESSION_CAP_S = 420
 
 QUICK_SESSIONS = {
     "default": 40,
+    "C17": 480,
+    "C19": 640,
 }
 THOROUGH_SESSIONS = {
     "default": 480,
+    "C17": 12000,
+    "C19": 16000,
 }
 
 
